@@ -135,10 +135,17 @@ def lib_mod(c):
     return m
 
 
+def _effkw(eff):
+    if eff is None:
+        return {}
+    if eff == "noaesni":                       # AES only: the portable C implementation instead of AES-NI
+        return {"use_aesni": False}
+    return {"effective_keylen": eff}           # RC2 only
+
+
 def lib_new(c, key, mode, eff=None, **params):
     m = lib_mod(c)
-    if eff is not None:
-        params["effective_keylen"] = eff
+    params.update(_effkw(eff))
     return m.new(key, getattr(m, "MODE_" + mode), **params)
 
 
@@ -214,10 +221,10 @@ def check_block(cfg, acc):
     exp = M.ecb_encrypt(R, pt)
     if ct != exp:
         _viol(acc, cfg, "block-encrypt", "%s(key=%s%s).encrypt(%s) = %s, reference %s"
-              % (c, short(key), "" if eff is None else ",effective_keylen=%d" % eff, short(pt), short(ct), short(exp)),
+              % (c, short(key), "" if eff is None else ",%r" % (_effkw(eff),), short(pt), short(ct), short(exp)),
               _script("from Crypto.Cipher import %s as C\nkw = %r\nprint(C.new(H('%s'), C.MODE_ECB, **kw).encrypt(H('%s')).hex())\n"
                       "print('%s  <- specification')\n"
-                      % (c, ({} if eff is None else {"effective_keylen": eff}), key.hex(), pt.hex(), exp.hex())))
+                      % (c, _effkw(eff), key.hex(), pt.hex(), exp.hex())))
     try:
         dec = lib_new(c, key, "ECB", eff, **kw).decrypt(exp)
     except Exception as e:  # noqa
@@ -370,7 +377,7 @@ def check_classic(cfg, acc, lengths=None):
             if L <= 4200 and mode != "CTR":
                 scr = _script("from Crypto.Cipher import %s as C\nkw = %r\nc = C.new(H('%s'), C.MODE_%s, **kw)\n"
                               "print(c.encrypt(H('%s')).hex())\nprint('%s  <- specification')\n"
-                              % (c, dict(kwe, **({} if eff is None else {"effective_keylen": eff})), key.hex(), mode,
+                              % (c, dict(kwe, **_effkw(eff)), key.hex(), mode,
                                  pt.hex(), (pre + exp).hex()))
             _viol(acc, case, "ciphertext", "%s-%s key=%s %s len=%d: ciphertext %s, specification %s"
                   % (c, mode, short(key, 32), _psig(cfg), L, short(got), short(pre + exp)), scr)
@@ -557,21 +564,12 @@ SIV_AAD = ([], [1], [16], [17], [0], [15, 33], [1, 16, 17], [16, 0, 1])
 
 
 def aead_grid(mode, c, klen, nl, vc, seed, quick):
-    """the C01 shape grid (without mutations) for one (mode, cipher, key length, nonce length, value class)"""
+    """the C01 shape grid (without mutations) for one (mode, cipher, key length, nonce length, value class):
+    every legal tag length x AAD lengths x message lengths (both tiers)"""
     bs = BS.get(c, 16)
     base = {"part": "aead", "c": c, "klen": klen, "vc": vc, "seed": seed, "mode": mode, "nl": nl}
     aadg = [0, 1, bs - 1, bs, bs + 1, 2 * bs + 1]
     msgg = [0, 1, bs - 1, bs, bs + 1, 2 * bs, 2 * bs + 1]
-    if mode == "GCM":
-        tls = (4, 12, 15, 16) if quick else range(4, 17)
-    elif mode == "CCM":
-        tls = (4, 10, 16) if quick else (4, 6, 8, 10, 12, 14, 16)
-    elif mode == "EAX":
-        tls = (2, bs - 1, bs) if quick else range(2, bs + 1)
-    elif mode == "OCB":
-        tls = (8, 12, 15, 16) if quick else range(8, 17)
-    else:
-        tls = (16,)
     if mode == "SIV":
         for a in SIV_AAD:
             for L in msgg:
@@ -582,9 +580,7 @@ def aead_grid(mode, c, klen, nl, vc, seed, quick):
             for L in (0, 1, 15, 16, 17, 32, 33, 63, 64, 65, 127, 128, 129):
                 yield dict(base, tl=16, aad=a, L=L)
         return
-    if quick:
-        aadg = [0, 1, bs, 2 * bs + 1]
-        msgg = [0, 1, bs - 1, bs, 2 * bs + 1]
+    tls = {"GCM": range(4, 17), "CCM": (4, 6, 8, 10, 12, 14, 16), "EAX": range(2, bs + 1), "OCB": range(8, 17)}[mode]
     for tl in tls:
         for a in aadg:
             for L in msgg:
@@ -601,13 +597,26 @@ def aead_alllen(mode, c, klen, vc, seed, quick):
     base = {"part": "aead", "c": c, "klen": klen, "vc": vc, "seed": seed, "mode": mode}
     nls = {"GCM": (12, 16), "CCM": (11, 13), "EAX": (16, 5), "OCB": (15, 12), "SIV": (None, 16), "CHAPOLY": (12, 24, 8)}[mode]
     ls = lens_all(bs)
-    for nl in nls[:1] if quick else nls:
-        for a in ((17,) if quick else (0, 17)):
+    for nl in nls:
+        for a in (0, 17):
             for L in ls:
                 d = dict(base, nl=nl, tl=min(16, BS.get(c, 16)), aad=([a] if a else []) if mode == "SIV" else a, L=L)
                 if mode == "CCM":
                     d["ccm"] = "declared" if a else "auto"
+                if nl == nls[0]:
+                    d["tldefault"] = True          # mac_len not passed: the documented default (= block size)
                 yield d
+    # every AAD length 0..8*block+1 (and around 16 blocks) with an empty and a 17-byte message
+    if mode != "SIV":
+        for a in list(range(0, 8 * 16 + 2)) + [255, 256, 257]:
+            for L in (0, 17):
+                d = dict(base, nl=nls[0], tl=min(16, BS.get(c, 16)), aad=a, L=L)
+                if mode == "CCM":
+                    d["ccm"] = "declared" if a % 2 else "auto"
+                yield d
+    else:
+        for a in list(range(0, 4 * 16 + 2)):
+            yield dict(base, nl=None, tl=16, aad=[a, (a * 5) % 37], L=a % 19)
     if mode == "CCM":
         # the remaining declaration variants, a few lengths
         for v in ("msg_len", "assoc_len"):
@@ -951,79 +960,96 @@ BIG = (1023, 1024, 1025, 4095, 4096, 4097, 65537)
 
 
 def classic_keys(quick):
-    """(cipher, key length, effective_keylen) configurations whose modes are enumerated"""
-    if quick:
-        return [("AES", 16, None), ("AES", 32, None), ("DES", 8, None), ("DES3", 24, None), ("Blowfish", 16, None),
-                ("CAST", 16, None), ("ARC2", 16, None)]
+    """(cipher, key length, effective_keylen) configurations for which every CTR layout is enumerated"""
     out = [("AES", k, None) for k in (16, 24, 32)] + [("DES", 8, None), ("DES3", 16, None), ("DES3", 24, None)]
     out += [("Blowfish", k, None) for k in (4, 16, 56)] + [("CAST", k, None) for k in (5, 10, 11, 16)]
     out += [("ARC2", 5, None), ("ARC2", 16, None), ("ARC2", 128, None), ("ARC2", 8, 64), ("ARC2", 16, 40), ("ARC2", 16, 129)]
+    out += [("AES", 16, "noaesni"), ("AES", 32, "noaesni")]
     return out
 
 
+def gcm_nonce_lens(quick):
+    return GCM_NL if quick else tuple(range(1, 34)) + (47, 48, 49, 63, 64, 65, 127, 128, 129)
+
+
+def eax_nonce_lens(quick, bs):
+    if bs == 8:
+        return (1, 8, 9) if quick else (1, 7, 8, 9, 16, 17)
+    return (1, 8, 16, 17) if quick else (1, 8, 15, 16, 17, 31, 32, 33)
+
+
+def siv_nonce_lens(quick):
+    return (None, 1, 12, 16) if quick else (None, 1, 12, 15, 16, 17, 32, 33)
+
+
 def plan(quick, seed):
-    """-> list of (weight, shard) ; every shard is a small tuple expanded inside the worker"""
+    """-> list of (weight, shard); every shard is a small tuple expanded inside the worker by cases_of()"""
     S = []
     vcs = ("asc", "seed") if quick else VCLS
-    # ---- block primitives
+    # ---- block primitives: every legal key length of every cipher (RC2: x effective_keylen grid)
     for c in ("AES", "DES", "DES3", "Blowfish", "CAST"):
         for klen in KEYLENS[c]:
             S.append((2 if c == "Blowfish" else 1, ("block", c, klen, None, VCLS)))
-    for klen in ((5, 8, 16, 33, 64, 127, 128) if quick else KEYLENS["ARC2"]):
+    for klen in KEYLENS["ARC2"]:
         S.append((6, ("block", "ARC2", klen, "grid", vcs)))
     S.append((1, ("kat",)))
     # ---- classic modes
+    # (a) ECB/CBC/CFB-all-segments/OFB/OpenPGP for EVERY legal key length of every cipher
+    for c in BS:
+        for klen in KEYLENS[c]:
+            for vc in (("seed",) if quick else VCLS):
+                S.append((6 if BS[c] == 16 else 2, ("classic", c, klen, None, vc, "basic", "all")))
     for (c, klen, eff) in classic_keys(quick):
         for vc in vcs:
-            S.append((8 if BS[c] == 16 else 3, ("classic", c, klen, eff, vc, "basic", "all")))
+            if eff is not None:
+                S.append((2, ("classic", c, klen, eff, vc, "basic", "all")))
+            # (b) CTR with nonce= / initial_value=
             S.append((12 if BS[c] == 16 else 3, ("classic", c, klen, eff, vc, "ctrn", "all")))
-            if not quick or (c, klen) in (("AES", 16), ("DES", 8)):
-                for g in ("ctrc0", "ctrc1"):
-                    if quick and vc != "seed":
-                        continue
-                    S.append((40 if BS[c] == 16 else 6, ("classic", c, klen, eff, vc, g, "few" if quick else "all")))
+            # (c) CTR with Counter.new layouts
+            full = (not quick) or ((c, klen) in (("AES", 16), ("DES3", 24)) and vc == "seed")
+            for g in ("ctrc0", "ctrc1"):
+                S.append(((50 if BS[c] == 16 else 8) if full else 4, ("classic", c, klen, eff, vc, g, "all" if full else "few")))
     # ---- AEAD grid
-    avcs = ("seed", "zero") if quick else VCLS
-    for klen in ((16,) if quick else (16, 24, 32)):
+    for klen in (16, 24, 32):
+        avcs = VCLS if not quick else (("seed", "zero") if klen == 16 else ("seed",))
         for vc in avcs:
-            for nl in GCM_NL:
+            for nl in gcm_nonce_lens(quick):
                 S.append((10, ("aead", "GCM", "AES", klen, nl, vc)))
             for nl in range(7, 14):
-                S.append((12, ("aead", "CCM", "AES", klen, nl, vc)))
-            for nl in (1, 8, 16, 17):
-                S.append((14, ("aead", "EAX", "AES", klen, nl, vc)))
+                S.append((14, ("aead", "CCM", "AES", klen, nl, vc)))
+            for nl in eax_nonce_lens(quick, 16):
+                S.append((22, ("aead", "EAX", "AES", klen, nl, vc)))
             for nl in range(1, 16):
                 S.append((8, ("aead", "OCB", "AES", klen, nl, vc)))
-            for nl in (None, 1, 12, 16):
+            for nl in siv_nonce_lens(quick):
                 S.append((3, ("aead", "SIV", "AES", 2 * klen, nl, vc)))
-    for vc in avcs:
+    for vc in (("seed", "zero") if quick else VCLS):
         for nl in (8, 12, 24):
             S.append((2, ("aead", "CHAPOLY", "ChaCha20", 32, nl, vc)))
-        for (c, klen) in ([("DES3", 24)] if quick else [("DES3", 16), ("DES3", 24), ("DES", 8), ("Blowfish", 16),
-                                                        ("CAST", 16), ("ARC2", 16)]):
-            for nl in (1, 8, 9):
-                S.append((6, ("aead", "EAX", c, klen, nl, vc)))
-    # ---- AEAD every length
+        for (c, klen) in [("DES3", 16), ("DES3", 24), ("DES", 8), ("Blowfish", 16), ("CAST", 16), ("ARC2", 16)]:
+            if quick and vc != "seed" and c != "DES3":
+                continue
+            for nl in eax_nonce_lens(quick, 8):
+                S.append((8 if c == "DES3" else 4, ("aead", "EAX", c, klen, nl, vc)))
+    # ---- AEAD every message length
     for vc in (("seed",) if quick else VCLS):
-        for mode in ("GCM", "CCM", "EAX", "OCB", "SIV"):
-            S.append((10, ("aeadlen", mode, "AES", 32 if mode == "SIV" else 16, vc)))
+        for klen in ((16,) if quick else (16, 24, 32)):
+            for mode in ("GCM", "CCM", "EAX", "OCB", "SIV"):
+                S.append((12, ("aeadlen", mode, "AES", 2 * klen if mode == "SIV" else klen, vc)))
         S.append((8, ("aeadlen", "CHAPOLY", "ChaCha20", 32, vc)))
-        if not quick:
-            S.append((8, ("aeadlen", "EAX", "DES3", 24, vc)))
-    # ---- OCB: all 256 values of the last nonce byte; CCM AAD header boundary; SIV component count
-    for vc in (("seed",) if quick else ("seed", "zero")):
-        for nl in ((12, 15) if quick else (1, 12, 15)):
-            S.append((6, ("ocb256", 16, nl, vc)))
-        S.append((10, ("ccmhdr", 16, vc)))
+        S.append((8, ("aeadlen", "EAX", "DES3", 24, vc)))
+    # ---- OCB: all 256 values of the last nonce byte; CCM AAD header boundary; SIV component count; counter wraps
+    for vc in (("seed",) if quick else VCLS):
+        for klen in ((16,) if quick else (16, 32)):
+            for nl in (1, 12, 15):
+                S.append((6, ("ocb256", klen, nl, vc)))
+        S.append((12, ("ccmhdr", 16, vc)))
         S.append((6, ("sivmany", 32, vc)))
-        S.append((6, ("crafted", "AES", 16, vc)))
-        S.append((3, ("crafted", "DES3", 24, vc)))
-        if not quick:
-            S.append((6, ("crafted", "AES", 32, vc)))
-            S.append((3, ("crafted", "Blowfish", 16, vc)))
+        for (c, klen) in (("AES", 16), ("AES", 32), ("DES3", 24), ("Blowfish", 16)):
+            S.append((4, ("crafted", c, klen, vc)))
     # ---- stream ciphers
     for vc in vcs:
-        for klen in ((1, 5, 16, 40, 255, 256) if quick else range(1, 257)):
+        for klen in range(1, 257):
             S.append((1, ("rc4", klen, vc)))
         for klen in (16, 32):
             S.append((3, ("salsa", klen, vc)))
@@ -1032,23 +1058,25 @@ def plan(quick, seed):
     # ---- key wrap
     for klen in (16, 24, 32):
         for vc in vcs:
-            S.append((5, ("kw", klen, vc)))
+            S.append((8, ("kw", klen, vc)))
     # ---- library-chosen IV / nonce
     for vc in VCLS:
         S.append((3, ("auto", vc)))
     # ---- DES3 key handling
     for klen in (16, 24):
-        for pos in (range(klen) if not quick else (0, 7, 8, 15, klen - 1)):
+        for pos in range(klen):
             S.append((2, ("des3key", "bytes", klen, pos)))
     S.append((3, ("des3key", "degenerate", asc(8, 0x20))))
     S.append((3, ("des3key", "degenerate", seeded("c02/degen", 8, seed))))
     # ---- multi-kilobyte messages
     if quick:
-        bigs = [("classic", "AES", 16, "CTR"), ("aead", "AES", 16, "GCM"), ("stream", "ChaCha20", 32, None)]
-        Ls = (1023, 1024, 1025, 4097)
+        bigs = [("classic", "AES", 16, "CBC"), ("classic", "AES", 16, "CTR"), ("aead", "AES", 16, "GCM"),
+                ("aead", "ChaCha20", 32, "CHAPOLY"), ("stream", "ChaCha20", 32, None)]
+        Ls = (1023, 1024, 1025, 4095, 4096, 4097)
     else:
         bigs = [("classic", "AES", 16, m) for m in ("ECB", "CBC", "CFB", "CFB128", "OFB", "CTR", "OPENPGP")]
-        bigs += [("classic", "DES3", 24, "CBC"), ("classic", "DES3", 24, "CTR"), ("classic", "AES", 32, "CTR")]
+        bigs += [("classic", "DES3", 24, "CBC"), ("classic", "DES3", 24, "CTR"), ("classic", "AES", 32, "CTR"),
+                 ("classic", "Blowfish", 16, "CFB"), ("classic", "CAST", 16, "OFB"), ("classic", "ARC2", 16, "CBC")]
         bigs += [("aead", "AES", 16, m) for m in ("GCM", "CCM", "EAX", "OCB")] + [("aead", "AES", 32, "SIV"),
                                                                                   ("aead", "AES", 32, "GCM"),
                                                                                   ("aead", "ChaCha20", 32, "CHAPOLY")]
@@ -1063,7 +1091,8 @@ def plan(quick, seed):
         elif b[3] == "KW":
             ls = sorted(set(v for L in Ls for v in (L // 8 * 8, -(-L // 8) * 8)))
         for L in ls:
-            S.append((4 + L // 4000, ("big",) + b + (L, "seed")))
+            for vc in (("seed",) if quick else ("seed", "ones")):
+                S.append((4 + L // 4000, ("big",) + b + (L, vc)))
     if not quick:
         S.append((30, ("big", "aead", "AES", 16, "CCM13", 65535, "seed")))
     return S
@@ -1305,43 +1334,51 @@ def run(ctx):
         "selftest_s": round(t_self, 1),
         "shards": len(shards),
         "grid": {
-            "value_alphabet": list(("asc", "seed") if q else VCLS) + ["(AEAD grid quick: seed, zero)"] * q,
+            "value_alphabet": "zero, ones, ascending, SHAKE256(seed) applied jointly to key/IV/nonce/AAD/message; "
+                              + ("quick: {asc,seed} for block/classic/stream/kw, {seed,zero} AEAD on AES-128, {seed} on "
+                                 "AES-192/256 and for the every-length and special grids" if q else "all 4 everywhere"),
             "block": "ECB over 4 block values x every legal key length: AES 16/24/32 (also use_aesni=False), DES, "
-                     "3DES 16/24, Blowfish 4..56 all, CAST 5..16 all (vectors, inversion, RFC 2144 key padding), "
-                     "RC2 key lengths %s x effective_keylen {40..1024 step 8} + {41,47,57,63,65,127,129,1017,1023}"
-                     % ("{5,8,16,33,64,127,128}" if q else "5..128 all"),
-            "classic_keys": ["%s-%d%s" % (c, 8 * k, "" if e is None else "/eff%d" % e) for c, k, e in classic_keys(q)],
-            "classic": "per key: ECB, CBC (every multiple of the block in range), CFB segment_size 8..8*block step 8 (all), "
-                       "OFB, OpenPGP, CTR nonce length 0..block-1 (all) x initial values (carry/wrap set, int and bytes form)"
-                       " x message length 0..8*block+1 all + {16b-1,16b,16b+1,24b,24b+1}",
-            "ctr_counter_layouts": "Counter.new: every (prefix,counter,suffix) split of the block x big/little endian x 3 "
-                                   "initial values; %s" % ("quick: AES-128 and DES, 10 boundary lengths" if q else
-                                                           "every key of classic_keys, all lengths"),
-            "aead": "GCM nonce %s x mac_len %s; CCM nonce 7..13 x mac_len %s x {lengths declared, not declared}; EAX nonce "
-                    "{1,8,16,17} (AES) {1,8,9} (64-bit ciphers) x mac_len %s; OCB nonce 1..15 x mac_len %s; SIV nonce "
-                    "{none,1,12,16} x 8 AD vectors (0-3 components incl. empty); ChaCha20-Poly1305 nonce {8,12,24}; x AAD "
-                    "x message lengths of the C01 grid; AES keys %s"
-                    % (list(GCM_NL), "{4,12,15,16}" if q else "4..16", "{4,10,16}" if q else "{4,6,..,16}",
-                       "{2,b-1,b}" if q else "2..block", "{8,12,15,16}" if q else "8..16", "128" if q else "128/192/256"),
-            "aead_all_lengths": "message length 0..8*block+1 all (+16/24 blocks) for GCM, CCM, EAX, OCB, SIV (AES), "
-                                "ChaCha20-Poly1305 (block 64)" + ("" if q else ", EAX-3DES"),
-            "special": "OCB all 256 last-nonce-byte values x nonce length %s x mac_len {16,12}; CCM AAD lengths "
-                       "{0xFEFF,0xFF00,0xFF01,0x10000}; SIV with 126/125+nonce components; GCM 16-byte nonces solved so that "
-                       "J0 ends in ffffffff/fe/fd/f7/f6 (inc32 wrap); EAX nonces solved so that the counter starts at "
-                       "2^n-{1,2,3,8,9,10}" % ("{12,15}" if q else "{1,12,15}"),
-            "stream": "RC4 key length %s x drop {none,0,1,255,256,257,768,3072} x length 0..65 all + {255..257,511..513}; "
-                      "Salsa20 16/32; ChaCha20 nonce 8/12/24 x length 0..513 all; ChaCha20.seek at 10 positions"
-                      % ("{1,5,16,40,255,256}" if q else "1..256 all"),
+                     "3DES 16/24, Blowfish 4..56 all, CAST 5..16 all (RFC 2144 vectors, inversion, key-padding rule), "
+                     "RC2 key lengths 5..128 all x effective_keylen {40..1024 step 8} + {41,47,57,63,65,127,129,1017,1023} "
+                     "against the RFC 2268 model",
+            "classic_basic": "for EVERY legal key length of AES, DES, 3DES, Blowfish, CAST, RC2: ECB, CBC (every block multiple), "
+                             "CFB segment_size 8..8*block step 8 (all), OFB, OpenPGP x message length 0..8*block+1 all + "
+                             "{16b-1,16b,16b+1,24b,24b+1}",
+            "ctr_keys": ["%s-%d%s" % (c, 8 * k, "" if e is None else "/%s" % e) for c, k, e in classic_keys(q)],
+            "ctr_nonce": "per ctr_key: nonce length 0..block-1 (all) x initial values {0,1,f7,f8,ff,2^w-1,2^w-8,2^w-9,2^w-17,"
+                         "2^(w-8)-1,2^(w-8)-9,fff8,7fffffff} (int; one bytes form) x all message lengths (as above)",
+            "ctr_counter_layouts": "Counter.new: every (prefix,counter,suffix) split of the block x big/little endian x initial "
+                                   "values {0, 2^w-9, f8}; " + ("quick: all message lengths for AES-128 and 3DES-192 (seed), 10 "
+                                                                "boundary lengths for the other ctr_keys" if q else
+                                                                "all message lengths for every ctr_key"),
+            "aead": "GCM nonce lengths %s x mac_len 4..16; CCM nonce 7..13 x mac_len {4,6,..,16} x {lengths declared, not "
+                    "declared}; EAX nonce %s (AES) / %s (DES, 3DES-128/192, Blowfish, CAST, RC2) x mac_len 2..block; OCB nonce "
+                    "1..15 x mac_len 8..16; SIV (256/384/512-bit keys) nonce %s x 8 AD vectors (0-3 components incl. an empty "
+                    "one); ChaCha20-Poly1305 nonce {8,12,24}; each x AAD {0,1,b-1,b,b+1,2b+1} x message {0,1,b-1,b,b+1,2b,2b+1}; "
+                    "AES-128/192/256"
+                    % (list(gcm_nonce_lens(q)), list(eax_nonce_lens(q, 16)), list(eax_nonce_lens(q, 8)),
+                       list(siv_nonce_lens(q))),
+            "aead_all_lengths": "message length 0..8*block+1 all (+16/24 blocks) x AAD {0,17} x two nonce lengths for GCM, CCM, "
+                                "EAX, OCB, SIV (AES-%s), EAX-3DES, ChaCha20-Poly1305 (block 64, nonce 8/12/24); CCM msg_len-only "
+                                "/ assoc_len-only declarations" % ("128" if q else "128/192/256"),
+            "special": "OCB all 256 last-nonce-byte values x nonce length {1,12,15} x mac_len {16,12}; CCM AAD lengths "
+                       "{0xFEFF,0xFF00,0xFF01,0x10000}; SIV with 126 / 125+nonce components; GCM 16-byte nonces solved so that "
+                       "J0 ends in ffffffff/fe/fd/f7/f6/7fffffff/ffff (inc32 wrap); EAX nonces (AES, 3DES, Blowfish) solved so "
+                       "that the counter starts at 2^n-{1,2,3,8,9,10}",
+            "stream": "RC4 key length 1..256 all x drop {none,3072} (boundary key lengths: {none,0,1,255,256,257,768,3072}) x "
+                      "length 0..65 all + {255..257,511..513}; Salsa20 16/32 and ChaCha20 nonce 8/12/24 x length 0..513 all "
+                      "+ {1023..1025,1536,1537}; ChaCha20.seek at 10 positions",
             "kw": "KW payload 16..368 step 8 all + {512,1024}; KWP payload 1..41 all + {63..65,255..257,343..345,1025}; AES 128/192/256",
             "auto": "library-chosen IV/nonce via tape (4 value classes) for CBC/CFB/OFB/OpenPGP/EAX on all 6 block ciphers, "
                     "CTR/GCM/CCM/OCB on AES, ChaCha20, Salsa20, ChaCha20-Poly1305; decrypted by the reference from cipher.iv/nonce only",
-            "des3key": "adjust_key_parity + DES3.new: all 256 values at byte positions %s of 2 base keys per length; "
-                       "K1=K2 / K2=K3 / K1=K2=K3 / K1=K3 under all 256 parity-bit masks; all 64 one-bit neighbours"
-                       % ("{0,7,8,15,last}" if q else "0..len-1 (all)"),
-            "multi_kilobyte": ("lengths {1023,1024,1025,4097}: AES-128-CTR, AES-128-GCM, ChaCha20" if q else
-                               "lengths {1023,1024,1025,4095,4096,4097,65537}: AES-128 ECB/CBC (block multiples) CFB8 CFB128 OFB "
-                               "CTR OpenPGP GCM(+AAD of that size) CCM EAX OCB, AES-256 CTR/GCM/SIV, 3DES CBC/CTR, "
-                               "ChaCha20, Salsa20, RC4, ChaCha20-Poly1305, KW, KWP; CCM 65535 bytes with a 13-byte nonce"),
+            "des3key": "adjust_key_parity + DES3.new: all 256 values at every byte position of 2 base keys per key length; "
+                       "K1=K2 / K2=K3 / K1=K2=K3 / K1=K3 under all 256 parity-bit masks; all 64 one-bit neighbours of a degenerate key",
+            "multi_kilobyte": ("lengths {1023,1024,1025,4095,4096,4097}: AES-128 CBC (block multiples), CTR, GCM (also AAD of "
+                               "that size); ChaCha20, ChaCha20-Poly1305" if q else
+                               "lengths {1023,1024,1025,4095,4096,4097,65537} x {seed,ones}: AES-128 ECB/CBC (nearest block "
+                               "multiples) CFB8 CFB128 OFB CTR OpenPGP GCM(+AAD of that size) CCM EAX OCB, AES-256 CTR/GCM/SIV, "
+                               "3DES CBC/CTR, Blowfish CFB8, CAST OFB, RC2 CBC, ChaCha20, Salsa20, RC4, ChaCha20-Poly1305, KW, "
+                               "KWP; CCM 65535 bytes with a 13-byte nonce"),
         },
     })
     ctx.assume("data values: only the 4-member value alphabet (zero, ones, ascending, SHAKE256(VERIF_SEED)) per shape, "
